@@ -12,3 +12,6 @@ import BalmProofs.Props.C12
 #print axioms Balm.Impl.symHypB_spec
 #print axioms Balm.Impl.fallback_eq_own
 #print axioms Balm.Impl.mem_fallbackRegion
+#print axioms Balm.Impl.exit_none_symTest
+#print axioms Balm.Impl.exit_some_symTest
+#print axioms Balm.Impl.asyncTS_reach
